@@ -360,6 +360,12 @@ def _synchronised_streams(ctx):
     from .c12 import r2_every_contig_gets_a_buffer
     r2_every_contig_gets_a_buffer(ctx)   # Jaccard / Forbes sum per-contig tables over the synchronised streams: every contig must get a buffer
 
+def _geometry_coordinates(ctx):
+    from .c10 import r4_coordinate_conversion, r3_per_chromosome_sizes
+    with ctx.only("GlobalOffset.to_local_interval", "GlobalOffset.from_local_interval", "GlobalOffset.start_ends_from_intervals", "Geometry."):
+        r4_coordinate_conversion(ctx)      # Geometry.sort / merge_intervals / clip / extend_to_size go through these conversions
+        r3_per_chromosome_sizes(ctx)
+
 RULES = [
     ("C08-R1", r1_merge),
     ("C08-R2", r2_sort_keys),
@@ -370,4 +376,5 @@ RULES = [
     ("C08-T1", _through_time),
     ("C08-T2", _small_edits),
     ("C08-R7", _synchronised_streams),
+    ("C08-R8", _geometry_coordinates),
 ]
